@@ -69,3 +69,52 @@ let upoly_of_string (s : string) : z list =
   if s = "" then [] else List.map z_of_string (String.split_on_char ',' s)
 let string_of_upoly (p : z list) : string =
   match pnorm p with [] -> "0" | q -> String.concat "," (List.map string_of_z q)
+
+(* ---- value text I/O (same tokens as harness/valio.h) *)
+let big_fuel = nat_of_int 2000
+
+let rat_of_dy_string (s : string) : rat =
+  (* "a/n" meaning a / 2^n *)
+  let k = String.index s '/' in
+  let a = z_of_string (String.sub s 0 k) and n = n_of_string (String.sub s (k + 1) (String.length s - k - 1)) in
+  match q_canon (a, pow2 n) with Some q -> q | None -> failwith "bad dyadic"
+
+let rat_of_q_string (s : string) : rat =
+  let k = String.index s '/' in
+  let a = z_of_string (String.sub s 0 k) and d = z_of_string (String.sub s (k + 1) (String.length s - k - 1)) in
+  match q_canon (a, d) with Some q -> q | None -> failwith "bad rational"
+
+(* kind: "z" | "d" | "q" | "a" (algebraic, proper interval) | "p" (algebraic, point) | "r" | "-inf" | "+inf" | "none" *)
+exception Bad_value of string
+let value_of_token (tok : string) : string * xval =
+  if tok = "-inf" then ("-inf", XMinf) else if tok = "+inf" then ("+inf", XPinf) else
+  let parts = String.split_on_char ':' tok in
+  match parts with
+  | ["z"; a] -> ("z", XFin (RQ (z_of_string a, z_of_int 1)))
+  | ["d"; s] -> ("d", XFin (RQ (rat_of_dy_string s)))
+  | ["p"; s] -> ("p", XFin (RQ (rat_of_dy_string s)))
+  | ["q"; s] -> ("q", XFin (RQ (rat_of_q_string s)))
+  | ["r"; cs; k] ->
+    (match rn_roots big_fuel (upoly_of_string cs) with
+     | Some rs -> (try ("r", XFin (List.nth rs (int_of_string k))) with _ -> raise (Bad_value "no such root"))
+     | None -> raise (Bad_value "fuel"))
+  | "a" :: cs :: lo :: hi :: rest ->
+    let p = upoly_of_string cs in
+    let x = RA (p, rat_of_dy_string lo, rat_of_dy_string hi) in
+    if not (rn_valid x) then raise (Bad_value ("invalid algebraic representation " ^ tok));
+    (match rest with
+     | [sa; sb] ->
+       if string_of_int (sgn_of_z (psgn_q p (rat_of_dy_string lo))) <> sa || string_of_int (sgn_of_z (psgn_q p (rat_of_dy_string hi))) <> sb
+       then raise (Bad_value ("stale sign cache in " ^ tok))
+     | _ -> ());
+    ("a", XFin (rn_norm x))
+  | _ -> raise (Bad_value ("unparsable value " ^ tok))
+
+let rnum_of_token tok = match value_of_token tok with (_, XFin x) -> x | _ -> raise (Bad_value "finite value expected")
+
+let string_of_rat (q : rat) = string_of_z (fst q) ^ "/" ^ string_of_z (snd q)
+let string_of_rnum (x : rnum) =
+  match x with
+  | RQ q -> "q:" ^ string_of_rat q
+  | RA (p, lo, hi) -> "alg:" ^ string_of_upoly p ^ ":(" ^ string_of_rat lo ^ "," ^ string_of_rat hi ^ ")"
+let string_of_xval v = match v with XMinf -> "-inf" | XPinf -> "+inf" | XFin x -> string_of_rnum x
